@@ -11,6 +11,7 @@ import (
 	"sort"
 	"sync"
 	"sync/atomic"
+	"time"
 	"unsafe"
 
 	gio "github.com/whatap/golib/io"
@@ -166,11 +167,11 @@ func publicMethods(obj interface{}) []string {
 
 // synthArgs builds arguments for a method of obj; i varies keys and values
 // (keys 1..5 exist in a populated instance).
-func synthArgs(obj interface{}, tname string, ft reflect.Type, i int) ([]reflect.Value, error) {
+func synthArgs(obj interface{}, tname string, ft reflect.Type, i int, peer ...interface{}) ([]reflect.Value, error) {
 	var args []reflect.Value
 	for a := 0; a < ft.NumIn(); a++ {
 		pt := ft.In(a)
-		v, err := synth(obj, tname, pt, i)
+		v, err := synth(obj, tname, pt, i, peer...)
 		if err != nil {
 			return nil, err
 		}
@@ -181,7 +182,7 @@ func synthArgs(obj interface{}, tname string, ft reflect.Type, i int) ([]reflect
 
 var linkedKeyType = reflect.TypeOf((*hmap.LinkedKey)(nil)).Elem()
 
-func synth(obj interface{}, tname string, pt reflect.Type, i int) (reflect.Value, error) {
+func synth(obj interface{}, tname string, pt reflect.Type, i int, peer ...interface{}) (reflect.Value, error) {
 	switch pt.Kind() {
 	case reflect.Int, reflect.Int32, reflect.Int64, reflect.Int16, reflect.Int8:
 		return reflect.ValueOf(i).Convert(pt), nil
@@ -252,7 +253,10 @@ func synth(obj interface{}, tname string, pt reflect.Type, i int) (reflect.Value
 				return g.Call(nil)[0], nil
 			}
 		}
-		if pt == reflect.TypeOf(obj) { // another collection of the same type (PutAll)
+		if pt == reflect.TypeOf(obj) { // another collection of the same type (PutAll): the given peer, else a fresh one
+			if len(peer) > 0 && peer[0] != nil {
+				return reflect.ValueOf(peer[0]), nil
+			}
 			other, err := newPopulated(tname)
 			if err != nil {
 				return reflect.Value{}, err
@@ -263,13 +267,29 @@ func synth(obj interface{}, tname string, pt reflect.Type, i int) (reflect.Value
 	return reflect.Value{}, fmt.Errorf("%s: cannot synthesise an argument of type %s", tname, pt)
 }
 
-// caller returns a closure performing one call of the named public method.
-func caller(obj interface{}, tname, method string, i int) (func(), error) {
+// takesPeer: the method has a parameter of the receiver's own type (PutAll(other *T))
+func takesPeer(obj interface{}, method string) bool {
+	m := reflect.ValueOf(obj).MethodByName(method)
+	if !m.IsValid() {
+		return false
+	}
+	for a := 0; a < m.Type().NumIn(); a++ {
+		if m.Type().In(a) == reflect.TypeOf(obj) {
+			return true
+		}
+	}
+	return false
+}
+
+// caller returns a closure performing one call of the named public method;
+// peer (optional): the instance handed in where the method takes another
+// collection of the receiver's type -- obj itself for x.m(x).
+func caller(obj interface{}, tname, method string, i int, peer ...interface{}) (func(), error) {
 	m := reflect.ValueOf(obj).MethodByName(method)
 	if !m.IsValid() {
 		return nil, fmt.Errorf("%s has no method %s", tname, method)
 	}
-	args, err := synthArgs(obj, tname, m.Type(), i)
+	args, err := synthArgs(obj, tname, m.Type(), i, peer...)
 	if err != nil {
 		return nil, err
 	}
@@ -278,10 +298,135 @@ func caller(obj interface{}, tname, method string, i int) (func(), error) {
 
 // ---------------------------------------------------------------- the lock, from outside
 
+// extLock is the instance lock seen from outside: the harness takes it (in
+// exclusive or, for a readers-writer lock, in shared mode) and reads off the
+// lock's own words whether another goroutine is committed to waiting for it.
+// Positive evidence, no timing involved.  Layout assumed (checked by
+// lockLayoutOK before first use): sync.Mutex = {state int32; sema uint32} with
+// the waiter count in state >> 3; sync.RWMutex = {w Mutex; writerSem,
+// readerSem uint32; readerCount, readerWait int32} with readerCount lowered
+// by 1<<30 while a writer holds or has announced the lock.
+type extLock struct {
+	mu *sync.Mutex
+	rw *sync.RWMutex
+}
+
+const rwMaxReaders = 1 << 30
+
+func (l *extLock) modes() []string {
+	switch {
+	case l == nil:
+		return []string{"none"}
+	case l.rw != nil:
+		return []string{"excl", "shared"}
+	}
+	return []string{"excl"}
+}
+
+func (l *extLock) lock(mode string) {
+	switch {
+	case l == nil:
+	case l.rw != nil && mode == "shared":
+		l.rw.RLock()
+	case l.rw != nil:
+		l.rw.Lock()
+	default:
+		l.mu.Lock()
+	}
+}
+
+func (l *extLock) unlock(mode string) {
+	switch {
+	case l == nil:
+	case l.rw != nil && mode == "shared":
+		l.rw.RUnlock()
+	case l.rw != nil:
+		l.rw.Unlock()
+	default:
+		l.mu.Unlock()
+	}
+}
+
+func rwReaderCount(rw *sync.RWMutex) int32 {
+	return atomic.LoadInt32((*int32)(unsafe.Add(unsafe.Pointer(rw), 16)))
+}
+
+// parked: how many goroutines are committed to waiting for the lock the
+// harness holds in the given mode
+func (l *extLock) parked(mode string) int {
+	switch {
+	case l == nil:
+		return 0
+	case l.rw != nil && mode == "shared": // a writer took w, announced itself and waits for the readers to leave
+		if rwReaderCount(l.rw) < 0 {
+			return 1
+		}
+		return 0
+	case l.rw != nil: // writers queue on w (held by us), readers have counted themselves in and wait for readerSem
+		n := waiters((*sync.Mutex)(unsafe.Pointer(l.rw)))
+		if rc := rwReaderCount(l.rw) + rwMaxReaders; rc > 0 {
+			n += int(rc)
+		}
+		return n
+	}
+	return waiters(l.mu)
+}
+
+var layoutChecked, layoutErr = false, error(nil)
+
+// lockLayoutOK exercises a sync.RWMutex of its own the way the footprint does
+// and checks that the words read by parked() say what they are assumed to say.
+func lockLayoutOK() error {
+	if layoutChecked {
+		return layoutErr
+	}
+	layoutChecked = true
+	if unsafe.Sizeof(sync.RWMutex{}) != 24 || unsafe.Sizeof(sync.Mutex{}) != 8 {
+		layoutErr = fmt.Errorf("sync.RWMutex / sync.Mutex do not have the assumed layout (sizes %d / %d)", unsafe.Sizeof(sync.RWMutex{}), unsafe.Sizeof(sync.Mutex{}))
+		return layoutErr
+	}
+	wait := func(f func() bool) bool {
+		for i := 0; i < 40000; i++ {
+			if f() {
+				return true
+			}
+			time.Sleep(100 * time.Microsecond)
+		}
+		return false
+	}
+	rw := &sync.RWMutex{}
+	l := &extLock{rw: rw}
+	done := make(chan struct{}, 4)
+	l.lock("excl")
+	ok := l.parked("excl") == 0
+	go func() { rw.RLock(); rw.RUnlock(); done <- struct{}{} }()
+	ok = ok && wait(func() bool { return l.parked("excl") == 1 })
+	go func() { rw.Lock(); rw.Unlock(); done <- struct{}{} }()
+	ok = ok && wait(func() bool { return l.parked("excl") == 2 })
+	l.unlock("excl")
+	<-done
+	<-done
+	l.lock("shared")
+	ok = ok && l.parked("shared") == 0
+	go func() { rw.RLock(); rw.RUnlock(); done <- struct{}{} }()
+	<-done // a second reader is not kept out
+	ok = ok && l.parked("shared") == 0
+	go func() { rw.Lock(); rw.Unlock(); done <- struct{}{} }()
+	ok = ok && wait(func() bool { return l.parked("shared") == 1 })
+	l.unlock("shared")
+	<-done
+	if !ok {
+		layoutErr = fmt.Errorf("sync.RWMutex does not keep its reader / writer counts where this harness reads them (Go version?)")
+	}
+	return layoutErr
+}
+
 // lockOf reaches the unexported lock of the object at the relative path
 // (field names; empty = obj itself) using the table's knowledge of which
-// field is the lock.  Test-only: reflect + unsafe.
-func lockOf(tab *Table, tname string, obj interface{}, path []string) (*sync.Mutex, error) {
+// field is the lock.  Test-only: reflect + unsafe.  nil: the type has no lock
+// field of a kind the table knows -- nothing can be held from outside, the
+// calls are then made with nothing held (footprint mode "none").
+func lockOf(tab *Table, tname string, obj interface{}, path []string) (*extLock, error) {
 	v := reflect.ValueOf(obj).Elem()
 	ti := tab.Types[tname]
 	for _, f := range path {
@@ -303,6 +448,9 @@ func lockOf(tab *Table, tname string, obj interface{}, path []string) (*sync.Mut
 		}
 		v, ti, tname = fv, tab.Types[sub], sub
 	}
+	if ti.Lock == "" {
+		return nil, nil
+	}
 	lf := v.FieldByName(ti.Lock)
 	if !lf.IsValid() || !lf.CanAddr() {
 		return nil, fmt.Errorf("%s: lock field %q not reachable", tname, ti.Lock)
@@ -310,21 +458,27 @@ func lockOf(tab *Table, tname string, obj interface{}, path []string) (*sync.Mut
 	p := unsafe.Pointer(lf.UnsafeAddr())
 	switch lf.Type().String() {
 	case "sync.Mutex":
-		return (*sync.Mutex)(p), nil
+		return &extLock{mu: (*sync.Mutex)(p)}, nil
 	case "*sync.Mutex":
-		return *(**sync.Mutex)(p), nil
+		return &extLock{mu: *(**sync.Mutex)(p)}, nil
+	case "sync.RWMutex":
+		return &extLock{rw: (*sync.RWMutex)(p)}, lockLayoutOK()
+	case "*sync.RWMutex":
+		return &extLock{rw: *(**sync.RWMutex)(p)}, lockLayoutOK()
 	case "*sync.Cond":
 		c := *(**sync.Cond)(p)
 		if c == nil {
 			return nil, fmt.Errorf("%s: nil condition variable", tname)
 		}
-		mu, ok := c.L.(*sync.Mutex)
-		if !ok {
-			return nil, fmt.Errorf("%s: the condition variable's Locker is a %T", tname, c.L)
+		switch lk := c.L.(type) {
+		case *sync.Mutex:
+			return &extLock{mu: lk}, nil
+		case *sync.RWMutex:
+			return &extLock{rw: lk}, lockLayoutOK()
 		}
-		return mu, nil
+		return nil, nil // a Locker of a kind that cannot be held from here
 	}
-	return nil, fmt.Errorf("%s: lock field of unsupported type %s", tname, lf.Type())
+	return nil, nil
 }
 
 // waiters reads how many goroutines are queued on the mutex (sync.Mutex keeps
